@@ -514,7 +514,10 @@ def _walk(an, impl):
                         # async_accept closes an open peer socket
                         disturb(s); end_inc(s, pos); s.bound = None; s.bound_arg = None; s.after_refusal = None
                         s.conn_fam6 = None
-                        s.pending_accept += 1; s.limbo = []; s.touched = False
+                        # (an accept into an object that an earlier, still pending accept may already have connected
+                        # closes that connection)
+                        s.touched = s.pending_accept > 0
+                        s.pending_accept += 1; s.limbo = []
             elif m == "local":
                 a.locals.append((pos, " ".join(res), a.bound))
             continue
